@@ -631,7 +631,7 @@ func suiteList(ids []int) string {
 
 func genC06(r *rng, tier string, emit func(string)) {
 	gmS := [][]int{nil, {0xe013}, {0xe053}, {0xe013, 0xe053}, {0xe053, 0xe013}, {0xe011, 0xe013}, {0xe011}, {0xe051, 0xe053, 0xe013}, {0xe011, 0xe051}}
-	tlsS := [][]int{nil, {0x2f}, {0x35}, {0x9c}, {0xc013}, {0xc02f}, {0xcca8}, {0xc02b}, {0x9c, 0x2f}, {0x2f, 0xc02f}, {0xc02f, 0x9c, 0x2f}, {0xc02b, 0xc02f}, {0x0a}, {0xc030, 0x9d}}
+	tlsS := [][]int{nil, {0x2f}, {0x35}, {0x9c}, {0xc013}, {0xc02f}, {0xcca8}, {0xc02b}, {0x9c, 0x2f}, {0x2f, 0xc02f}, {0xc02f, 0x9c, 0x2f}, {0xc02b, 0xc02f}, {0x0a}, {0xc030, 0x9d}, {0xc027}, {0xc027, 0xc013}}
 	pay := func() string {
 		nc := r.pick([]int{0, 1, 100, 16384, 16385, 40000})
 		ns := r.pick([]int{0, 1, 100, 16384, 16385, 40000})
@@ -763,8 +763,8 @@ func genC06(r *rng, tier string, emit func(string)) {
 	}
 	// interoperability with the Go standard library: one suite at a time (its preference order is its own)
 	for _, v := range []string{"10", "11", "12"} {
-		for _, su := range []int{0x2f, 0x35, 0xc013, 0xc014, 0x9c, 0xc02f, 0xc030, 0xcca8, 0xc02b} {
-			tls12only := su == 0x9c || su == 0xc02f || su == 0xc030 || su == 0xcca8 || su == 0xc02b
+		for _, su := range []int{0x2f, 0x35, 0xc013, 0xc014, 0xc027, 0x9c, 0xc02f, 0xc030, 0xcca8, 0xc02b} {
+			tls12only := su == 0x9c || su == 0xc02f || su == 0xc030 || su == 0xcca8 || su == 0xc02b || su == 0xc027
 			if tls12only && v != "12" {
 				continue
 			}
@@ -781,6 +781,7 @@ func genC06(r *rng, tier string, emit func(string)) {
 	}
 	c06rGen(r, tier, emit) // Conn.Read buffering and handshake reassembly (Model.ConnRead)
 	c06oGen(r, tier, emit) // configuration corners: VerifyPeerCertificate, GetConfigForClient, ALPN, DynamicRecordSizingDisabled
+	c06iGen(r, tier, emit) // certificates issued by an intermediate CA, every way of supplying the chain (c06inter.go)
 }
 
 type keyLog struct {
